@@ -149,7 +149,7 @@ def check_C04(tier):
               "distinct = distinct (state, action) edges of the BFS graph"),
         assumptions=[BOUNDS, FAKES, "handles that lost their attachment guarantee (PyOps!Destroys) are not used further",
                      "Sync.tla (Level 2, identities): exhaustive BFS of two objects + retained node objects + orphans + outside "
-                     "writer to 3 (quick) / 4 (thorough) steps with the C04/C02 statements as action properties on every edge; "
+                     "writer to 3 steps (thorough: wider operation menu, plus random behaviours of 8 steps) with the C04/C02 statements as action properties on every edge; "
                      "sampled shortest-path behaviours replayed on all 18 classes comparing results, resource, in-memory "
                      "images (no load) and the position of every retained node object by `is`"],
         extra=sync_mechanism)
@@ -357,7 +357,7 @@ def sync_mechanism(run, tier):
     orphans) against the Level-1 statements on every edge, and exports shortest-path behaviours; the harness replays
     them on every class and compares, after every step, results, resource, in-memory images and identities."""
     quick = tier == "quick"
-    base = {"Objs": '{"o1", "o2"}', "MaxId": "2", "MaxSteps": "4" if quick else "5", "SampleK": "100" if quick else "1500", "Wide": "FALSE",
+    base = {"Objs": '{"o1", "o2"}', "MaxId": "2", "MaxSteps": "4", "SampleK": "100" if quick else "60", "Wide": "FALSE" if quick else "TRUE",
             "Dev_NestedNoLoad": "FALSE", "Dev_NoneIsNoop": "FALSE", "Dev_PyEqKeepsOld": "FALSE"}
     for kind in ("d", "l"):
         consts = dict(base, Kind=f'"{kind}"')
@@ -365,14 +365,23 @@ def sync_mechanism(run, tier):
                            action_constraints=["ExportPath"], properties=SYNC_PROPS, invariants=["Mech_OnePlace"])
         res = tlc.run("MC_Sync", cfg, name=f"sync-{kind}", seed=common.seed(), timeout=3000)
         if not res.ok:
-            if res.violated:
-                run.violation({"cls": "Sync.tla", "op": f"model kind={kind}", "aspect": "model",
-                               "detail": f"TLC: {res.violated} violated in the mechanism model", "trace": res.trace_text()[:3000]})
-            else:
-                run.machinery_error(f"TLC MC_Sync {kind}: {res.errors[:2]} {res.tail(8)}")
+            # (a violated property here is a defect of the MODEL - the code is judged by the replay below)
+            run.machinery_error(f"TLC MC_Sync {kind}: {res.violated} {res.errors[:2]} {res.tail(8)}")
             continue
         run.add_tlc(res, f"Sync.tla mechanism on identities kind={kind}")
         hs = list(res.records("SYH"))
+        if not quick:
+            # beyond the exhaustive depth: random behaviours of 8 steps with the wide operation menu
+            c2 = dict(consts, MaxSteps="9", SampleK="12", Wide="TRUE")
+            cfg2 = tlc.cfg_text(init="MCInit", next_="MCNext", constants=c2, constraints=["Bounded"],
+                                action_constraints=["ExportPath"], properties=SYNC_PROPS, invariants=["Mech_OnePlace"])
+            r3 = tlc.run("MC_Sync", cfg2, name=f"sync-sim-{kind}", seed=common.seed() + 7, simulate="num=4000", depth=9,
+                         timeout=1500)
+            if r3.violated or r3.errors:
+                run.machinery_error(f"TLC MC_Sync simulation {kind}: {r3.violated} {r3.errors[:2]} {r3.tail(8)}")
+            else:
+                run.add_tlc(r3, f"Sync.tla simulation depth 9 wide menu kind={kind}")
+                hs += list(r3.records("SYH"))
         acts = {}
         for h in hs:
             for s_ in h[1:]:
